@@ -159,11 +159,12 @@ func (p *Program) AllFunctions() map[*ssa.Function]bool {
 }
 
 // ModuleFunctions returns all functions (incl. anonymous and methods) whose package is in the module,
-// sorted by position for deterministic output. Synthetic wrappers are skipped.
+// sorted by position for deterministic output. Synthetic wrappers are skipped; package initializers (the home of
+// package-level variable initialisers) are kept.
 func (p *Program) ModuleFunctions() []*ssa.Function {
 	var out []*ssa.Function
 	for fn := range p.AllFunctions() {
-		if fn.Synthetic != "" && !strings.HasPrefix(fn.Synthetic, "instance of") {
+		if fn.Synthetic != "" && !strings.HasPrefix(fn.Synthetic, "instance of") && fn.Synthetic != "package initializer" {
 			continue
 		}
 		pk := fn.Package()
